@@ -61,7 +61,15 @@ fn op_lex(lx: &mut Lx, op: &Op) {
     }
 }
 
+thread_local! {
+    /// expressions of the table families, kept to be written again in every other place an expression can stand
+    static PLACED: std::cell::RefCell<Vec<(&'static str, String, Lx, NT)>> = std::cell::RefCell::new(vec![]);
+}
+
 fn stmt_case(group: &'static str, label: String, e_lx: Lx, e_nt: NT) -> Case {
+    if matches!(group, "expr.pair" | "expr.unary" | "expr.unary-group") {
+        PLACED.with(|p| p.borrow_mut().push((group, label.clone(), e_lx.clone(), e_nt.clone())));
+    }
     let mut body = Lx::new();
     body.id("a").op(":=");
     body.extend(&e_lx);
@@ -310,6 +318,129 @@ pub fn tables() -> Vec<Case> {
                     out.push(stmt_case("expr.unary-group", format!("{}({}) {} {}", utext, o1.text, place, o2.text), lx, nt));
                 }
             }
+        }
+    }
+    // the place of an expression is a dimension: every expression of the pair, unary and unary-group tables is
+    // written again as a subscript (of a source and of a target), between two subscripts, as a subscript below a
+    // field selector, as a positional and as a named argument of a function and of a function block, and as every
+    // condition, selector and bound a statement has
+    let placed: Vec<(&'static str, String, Lx, NT)> = PLACED.with(|p| p.borrow_mut().drain(..).collect());
+    let call_nt = |name: &str, args: Vec<NT>| n("Call", vec![("name", s(name)), ("args", l(args))]);
+    let one = || assign(ref_("d"), int(1));
+    for (group, label, e, ent) in placed {
+        // every unary-group expression, every eighth of the others (the place matters for the operators at the top)
+        let key = label.bytes().fold(0u32, |a, b| a.wrapping_mul(31).wrapping_add(b as u32));
+        if group != "expr.unary-group" && key % 8 != 0 {
+            continue;
+        }
+        let places: [&str; 16] = [
+            "subscript", "target-subscript", "second-subscript", "subscript-below-field", "subscript-in-subscript", "function-argument", "named-function-argument",
+            "fb-argument", "if-condition", "elsif-condition", "while-condition", "until-condition", "case-selector", "for-from", "for-to", "for-by",
+        ];
+        for place in places {
+            let mut b = Lx::new();
+            let st: NT = match place {
+                "subscript" => {
+                    b.id("a").op(":=").id("arr").p("[");
+                    b.extend(&e);
+                    b.p("]").p(";");
+                    assign(ref_("a"), n("Index", vec![("of", ref_("arr")), ("subs", l(vec![ent.clone()]))]))
+                }
+                "target-subscript" => {
+                    b.id("arr").p("[");
+                    b.extend(&e);
+                    b.p("]").op(":=").id("a").p(";");
+                    assign(n("Index", vec![("of", ref_("arr")), ("subs", l(vec![ent.clone()]))]), ref_("a"))
+                }
+                "second-subscript" => {
+                    b.id("a").op(":=").id("arr").p("[").num("1").p(",");
+                    b.extend(&e);
+                    b.p(",").id("b").p("]").p(";");
+                    assign(ref_("a"), n("Index", vec![("of", ref_("arr")), ("subs", l(vec![int(1), ent.clone(), ref_("b")]))]))
+                }
+                "subscript-below-field" => {
+                    b.id("a").op(":=").id("arr").p("[");
+                    b.extend(&e);
+                    b.p("]").p(".").id("x").p(";");
+                    assign(ref_("a"), n("Field", vec![("of", n("Index", vec![("of", ref_("arr")), ("subs", l(vec![ent.clone()]))])), ("field", s("x"))]))
+                }
+                "subscript-in-subscript" => {
+                    b.id("a").op(":=").id("arr").p("[").id("idx").p("[");
+                    b.extend(&e);
+                    b.p("]").p("]").p(";");
+                    assign(ref_("a"), n("Index", vec![("of", ref_("arr")), ("subs", l(vec![n("Index", vec![("of", ref_("idx")), ("subs", l(vec![ent.clone()]))])]))]))
+                }
+                "function-argument" => {
+                    b.id("a").op(":=").id("Fn").p("(").id("b").p(",");
+                    b.extend(&e);
+                    b.p(")").p(";");
+                    assign(ref_("a"), call_nt("Fn", vec![n("Pos", vec![("e", ref_("b"))]), n("Pos", vec![("e", ent.clone())])]))
+                }
+                "named-function-argument" => {
+                    b.id("a").op(":=").id("Fn").p("(").id("x").op(":=");
+                    b.extend(&e);
+                    b.p(")").p(";");
+                    assign(ref_("a"), call_nt("Fn", vec![n("Named", vec![("name", s("x")), ("e", ent.clone())])]))
+                }
+                "fb-argument" => {
+                    b.id("inst").p("(").id("x").op(":=");
+                    b.extend(&e);
+                    b.p(",").id("y").op(":=").id("b").p(")").p(";");
+                    n("FbCall", vec![("name", s("inst")), ("args", l(vec![n("Named", vec![("name", s("x")), ("e", ent.clone())]), n("Named", vec![("name", s("y")), ("e", ref_("b"))])]))])
+                }
+                "if-condition" => {
+                    b.kw("IF");
+                    b.extend(&e);
+                    b.kw("THEN").words("d := 1 ;").kw("END_IF").p(";");
+                    n("If", vec![("cond", ent.clone()), ("then", l(vec![one()])), ("elsifs", l(vec![])), ("else", l(vec![]))])
+                }
+                "elsif-condition" => {
+                    b.kw("IF").id("b").kw("THEN").words("d := 1 ;").kw("ELSIF");
+                    b.extend(&e);
+                    b.kw("THEN").words("d := 1 ;").kw("END_IF").p(";");
+                    n("If", vec![("cond", ref_("b")), ("then", l(vec![one()])), ("elsifs", l(vec![n("ElsIf", vec![("cond", ent.clone()), ("body", l(vec![one()]))])])), ("else", l(vec![]))])
+                }
+                "while-condition" => {
+                    b.kw("WHILE");
+                    b.extend(&e);
+                    b.kw("DO").words("d := 1 ;").kw("END_WHILE").p(";");
+                    n("While", vec![("cond", ent.clone()), ("body", l(vec![one()]))])
+                }
+                "until-condition" => {
+                    b.kw("REPEAT").words("d := 1 ;").kw("UNTIL");
+                    b.extend(&e);
+                    b.kw("END_REPEAT").p(";");
+                    n("Repeat", vec![("body", l(vec![one()])), ("until", ent.clone())])
+                }
+                "case-selector" => {
+                    b.kw("CASE");
+                    b.extend(&e);
+                    b.kw("OF").num("1").p(":").words("d := 1 ;").kw("END_CASE").p(";");
+                    n("Case", vec![("sel", ent.clone()), ("groups", l(vec![n("Group", vec![("sels", l(vec![NT::I(1, false)])), ("body", l(vec![one()]))])])), ("else", l(vec![]))])
+                }
+                _ => {
+                    // FOR i := from TO to BY by DO
+                    let slot = |b: &mut Lx, here: bool, dflt: &str| -> NT {
+                        if here {
+                            b.extend(&e);
+                            ent.clone()
+                        } else {
+                            b.num(dflt);
+                            int(dflt.parse().unwrap())
+                        }
+                    };
+                    b.kw("FOR").id("c").op(":=");
+                    let from = slot(&mut b, place == "for-from", "1");
+                    b.kw("TO");
+                    let to = slot(&mut b, place == "for-to", "9");
+                    b.kw("BY");
+                    let by = slot(&mut b, place == "for-by", "2");
+                    b.kw("DO").words("d := 1 ;").kw("END_FOR").p(";");
+                    n("For", vec![("ctrl", s("c")), ("from", from), ("to", to), ("by", by), ("body", l(vec![one()]))])
+                }
+            };
+            let (lx, nt) = host_fb(&b, vec![st]);
+            out.push(Case { group: "expr.place", labels: vec![format!("place={}", place), format!("{}:{}", group, label)], lx, nt });
         }
     }
     out
